@@ -112,7 +112,7 @@ impl Property for C03 {
         }
     }
     fn rule(&self) -> &'static str {
-        "one run = one generated document (adversarial fragment soup in the HTML namespace without svg/math, or documents from a well-nested foreign-content grammar incl. self-closing roots) x one capture set (all kinds, or a single kind) x 3 delivery schedules (single, context-biased, random); the strict-mode token stream seen through the TransformController seam is compared with html5ever's tokenizer driven by its tree builder, with the non-strict run, and ParsingAmbiguity is accepted only under the stated necessary condition; non-trivial = the document contains a text-mode element, a comment/doctype/CDATA construct or foreign content; distinct by document+capture fingerprint"
+        "one run = one generated document (adversarial fragment soup in the HTML namespace without svg/math, or documents from a well-nested foreign-content grammar incl. self-closing roots) x one capture set (all kinds, or a single kind) x 3 delivery schedules (single, context-biased, random), plus a public-API population in which only 1-3 element names (incl. the namespace-changing svg/math/foreignObject) or `*` have handlers, so that the parser scans between them and hands over at those tags; 1 document in 25 ends a few bytes into a tag; the strict-mode token stream seen through the TransformController seam is compared with html5ever's tokenizer driven by its tree builder, with the non-strict run, and ParsingAmbiguity is accepted only under the stated necessary condition; non-trivial = the document contains a text-mode element, a comment/doctype/CDATA construct or foreign content; distinct by document+capture fingerprint"
     }
     fn assumptions(&self) -> Vec<&'static str> {
         vec![
@@ -154,13 +154,18 @@ impl Property for C03 {
         // switches to the lexer only for the selected tags (what real rewriters do)
         {
             let lower = String::from_utf8_lossy(&doc).to_ascii_lowercase();
-            let mut names: Vec<&str> = ["b", "i", "a", "p", "span", "script", "style", "title", "u", "em", "g", "path", "mi", "mtext", "desc", "li", "td", "div", "textarea"]
+            let mut names: Vec<&str> = ["b", "i", "a", "p", "span", "script", "style", "title", "u", "em", "g", "path", "mi", "mtext", "desc", "li", "td", "div", "textarea", "svg", "math", "foreignobject", "annotation-xml"]
                 .into_iter()
                 .filter(|n| lower.contains(&format!("<{n}")))
                 .collect();
             if !names.is_empty() {
                 rng.shuffle(&mut names);
                 names.truncate(rng.range(1, 3));
+                if rng.chance(1, 4) {
+                    // every start tag is lexed, everything in between is scanned: a hand-over
+                    // at every tag (incl. the namespace-changing ones)
+                    names = vec!["*"];
+                }
                 let mut sc = Scenario::new(doc.clone());
                 sc.strict = true;
                 for n in &names {
@@ -308,7 +313,7 @@ impl C03 {
         let want: Vec<(String, Vec<(String, String)>, bool)> = h5e::reference(text)
             .into_iter()
             .filter_map(|t| match t {
-                RTok::Start { name, attrs, self_closing } if names.contains(&name) => Some((name, attrs, self_closing)),
+                RTok::Start { name, attrs, self_closing } if names.contains(&name) || names.iter().any(|n| n == "*") => Some((name, attrs, self_closing)),
                 _ => None,
             })
             .collect();
